@@ -62,6 +62,33 @@ func (c *c04CapInformer) AddEventHandlerWithOptions(h k8scache.ResourceEventHand
 	return c.SharedIndexInformer.AddEventHandlerWithOptions(h, o)
 }
 
+// c04Tombstone returns what client-go itself hands to OnDelete for an object whose deletion is noticed on re-list: a real
+// cache.DeltaFIFO whose known-objects store holds `obj` gets Replace(empty list); the Deleted delta it queues carries the
+// tombstone.  (nil if client-go queued nothing: the caller then builds the tombstone by hand.)
+func c04Tombstone(obj interface{}) interface{} {
+	store := k8scache.NewStore(k8scache.MetaNamespaceKeyFunc)
+	if err := store.Add(obj); err != nil {
+		return nil
+	}
+	fifo := k8scache.NewDeltaFIFOWithOptions(k8scache.DeltaFIFOOptions{KeyFunction: k8scache.MetaNamespaceKeyFunc, KnownObjects: store})
+	if err := fifo.Replace(nil, "2"); err != nil {
+		return nil
+	}
+	fifo.Close() // Pop must not block when nothing was queued
+	var out interface{}
+	_, _ = fifo.Pop(func(d interface{}, _ bool) error {
+		if ds, ok := d.(k8scache.Deltas); ok {
+			for _, delta := range ds {
+				if delta.Type == k8scache.Deleted {
+					out = delta.Object
+				}
+			}
+		}
+		return nil
+	})
+	return out
+}
+
 type c04Wired struct {
 	mgr       *PodGroupManager
 	podH, pgH []k8scache.ResourceEventHandler // in registration order (the code registers one each)
@@ -110,7 +137,7 @@ type c04WP struct {
 	p, g int
 }
 
-func (w *c04WP) GetPod() *corev1.Pod        { return w.pod }
+func (w *c04WP) GetPod() *corev1.Pod         { return w.pod }
 func (w *c04WP) GetPendingPlugins() []string { return []string{Name} }
 func (w *c04WP) Allow(pluginName string) {
 	w.h.allowed = append(w.h.allowed, w.p)
@@ -127,7 +154,7 @@ type c04Handle struct {
 	allowed, rejected           []int
 }
 
-func (h *c04Handle) Scheduler() frameworkext.Scheduler                     { return nil }
+func (h *c04Handle) Scheduler() frameworkext.Scheduler                   { return nil }
 func (h *c04Handle) GetWorkloadAuditor() workloadauditor.WorkloadAuditor { return nil }
 func (h *c04Handle) IterateOverWaitingPods(cb func(fwktype.WaitingPod)) {
 	keys := make([]int, 0, len(h.waiting))
@@ -316,9 +343,9 @@ func c04Has(xs []int, x int) bool {
 
 // canonical projection of one GangSummary
 type c04Sum struct {
-	init, strict, sat     bool
-	min, pol              int
-	grp, ch, pe, wa, bo   []int
+	init, strict, sat   bool
+	min, pol            int
+	grp, ch, pe, wa, bo []int
 }
 
 func c04Project(s *GangSummary) c04Sum {
@@ -346,13 +373,13 @@ func c04Project(s *GangSummary) c04Sum {
 }
 
 type c04PodSt struct {
-	id, g   int
-	added   bool // the cache has seen an add that was not followed by a delete
-	bound   bool // harness view: bound since the last delete (superset of the gang's BoundChildren)
-	flight  int  // 0 none, 1 parked at Permit (framework waiting map), 2 released (bind pending), 3 rejected (unreserve pending)
+	id, g    int
+	added    bool // the cache has seen an add that was not followed by a delete
+	bound    bool // harness view: bound since the last delete (superset of the gang's BoundChildren)
+	flight   int  // 0 none, 1 parked at Permit (framework waiting map), 2 released (bind pending), 3 rejected (unreserve pending)
 	seenNode bool // an informer event of this pod incarnation carried a node name (it can never be empty again)
-	gone    bool // the delete event of the pod was delivered (object or tombstone) and no event / call has named the pod since
-	tainted bool // the pod got a call outside the framework / informer contract (Permit while bound, PostBind without release, node name going back to empty); such a pod is exempt from the two-sets clause (not from member-in-no-set)
+	gone     bool // the delete event of the pod was delivered (object or tombstone) and no event / call has named the pod since
+	tainted  bool // the pod got a call outside the framework / informer contract (Permit while bound, PostBind without release, node name going back to empty); such a pod is exempt from the two-sets clause (not from member-in-no-set)
 }
 
 // ---- new-gang race stream ----
@@ -369,7 +396,7 @@ type c04PodSt struct {
 
 type c04RaceStats struct{ cases, rounds, gangs int }
 
-func c04RaceCase(h *vHarness, r *vRand, st *c04RaceStats) {
+func c04RaceCase(h *vHarness, r *vRand, st *c04RaceStats, cl *c04WireClients) {
 	h.Tag("newgang-race")
 	h.Op("# new-gang race: pod informer goroutine vs PodGroup informer goroutine")
 	fh := &c04Handle{waiting: map[int]*c04WP{}}
@@ -377,6 +404,25 @@ func c04RaceCase(h *vHarness, r *vRand, st *c04RaceStats) {
 		DefaultMatchPolicy: extension.GangMatchPolicyOnceSatisfied}
 	cache := NewGangCache(args, nil, nil, nil, fh)
 	mgr := &PodGroupManager{handle: fh, args: args, cache: cache}
+	podAdd := func(pod *corev1.Pod) { cache.onPodAdd(pod) }
+	pgAdd := func(pg *v1alpha1.PodGroup) { cache.onPodGroupAdd(pg) }
+	if r.Bool() {
+		// every other case: the manager of NewPodGroupManager, each goroutine calls the handler registered on ITS informer
+		if w, err := c04Wire(fh, args, cl); err == nil {
+			h.Tag("newgang-race:through the registered handlers")
+			mgr = w.mgr
+			podAdd = func(pod *corev1.Pod) {
+				for _, eh := range w.podH {
+					eh.OnAdd(pod, false)
+				}
+			}
+			pgAdd = func(pg *v1alpha1.PodGroup) {
+				for _, eh := range w.pgH {
+					eh.OnAdd(pg, false)
+				}
+			}
+		}
+	}
 	type rg struct {
 		id   int
 		cfg  c04Cfg
@@ -451,7 +497,7 @@ func c04RaceCase(h *vHarness, r *vRand, st *c04RaceStats) {
 			for i, g := range batch {
 				meet(i, g.skew)
 				for _, pod := range g.pods {
-					cache.onPodAdd(pod)
+					podAdd(pod)
 				}
 			}
 		}()
@@ -464,7 +510,7 @@ func c04RaceCase(h *vHarness, r *vRand, st *c04RaceStats) {
 			}()
 			for i, g := range batch {
 				meet(i, -g.skew)
-				cache.onPodGroupAdd(g.pg)
+				pgAdd(g.pg)
 			}
 		}()
 		wg.Wait()
@@ -601,7 +647,10 @@ func TestVerifC04(t *testing.T) {
 		shp := idx >= n+nExh+nConc && idx < n+nExh+nConc+nShp
 		wired := idx >= n+nExh+nConc+nShp && idx < n+nExh+nConc+nShp+nWired
 		if idx >= n+nExh+nConc+nShp+nWired && idx < wexhBase {
-			c04RaceCase(h, r, raceStats)
+			if wireClients == nil {
+				wireClients = c04NewWireClients()
+			}
+			c04RaceCase(h, r, raceStats, wireClients)
 			h.End()
 			continue
 		}
@@ -1109,7 +1158,10 @@ func TestVerifC04(t *testing.T) {
 				switch v := r.Intn(20); {
 				case v < 11:
 					shape = 1
-					obj = k8scache.DeletedFinalStateUnknown{Key: "ns/" + pg.Name, Obj: pg}
+					if obj = c04Tombstone(pg); obj == nil {
+						obj = k8scache.DeletedFinalStateUnknown{Key: "ns/" + pg.Name, Obj: pg}
+						h.Tag("tombstone:built by hand")
+					}
 				case v < 13:
 					shape = 2
 					if r.Bool() {
@@ -1187,7 +1239,10 @@ func TestVerifC04(t *testing.T) {
 				switch {
 				case v < 11:
 					shape = 1
-					obj = k8scache.DeletedFinalStateUnknown{Key: "ns/" + pod.Name, Obj: pod}
+					if obj = c04Tombstone(pod); obj == nil {
+						obj = k8scache.DeletedFinalStateUnknown{Key: "ns/" + pod.Name, Obj: pod}
+						h.Tag("tombstone:built by hand")
+					}
 				case v < 13:
 					shape = 2
 					switch r.Intn(3) {
@@ -2010,13 +2065,13 @@ func TestVerifC04(t *testing.T) {
 	h.Close("history of 6-30 (+scripted prefix) informer events and scheduling-cycle calls over 1-3 gangs in 1-3 gang groups, " +
 		"1-4 pods each, 3 match policies x 2 modes (+absent/illegal values), PodGroup / annotation / lightweight-label gangs; " +
 		"non-trivial = at least two members released from Permit or at least one strict-mode group rejection that hit a waiting pod; " +
-		fmt.Sprintf("plus an exhaustive stream: all 14^%d call sequences after a fixed arrival prefix on 2 gangs x 1 pod for %d (policy, mode) pairs; ", exhLen, len(exhCfgs))+
-		fmt.Sprintf("plus %d cases exhausting path x groups-annotation shape x min x policy x mode for one gang (+ a partner gang); ", nShp)+
+		fmt.Sprintf("plus an exhaustive stream: all 14^%d call sequences after a fixed arrival prefix on 2 gangs x 1 pod for %d (policy, mode) pairs; ", exhLen, len(exhCfgs)) +
+		fmt.Sprintf("plus %d cases exhausting path x groups-annotation shape x min x policy x mode for one gang (+ a partner gang); ", nShp) +
 		fmt.Sprintf("plus a concurrency stream of %d cases: after a sequential prefix an informer goroutine (pod add / update / delete, repeated) races a scheduling goroutine "+
-			"(Permit / Unreserve / PostBind in protocol order) on the same pods for 6-20 rounds, oracle at every barrier; non-trivial there = a round in which calls of the two goroutines overlapped in time; ", nConc)+
+			"(Permit / Unreserve / PostBind in protocol order) on the same pods for 6-20 rounds, oracle at every barrier; non-trivial there = a round in which calls of the two goroutines overlapped in time; ", nConc) +
 		fmt.Sprintf("plus a wired stream of %d cases: the same histories on a PodGroupManager built by the real NewPodGroupManager, every informer event handed to the handler it registered on the "+
-			"(captured) pod / PodGroup informer, deletes as the object, as a re-list tombstone (DeletedFinalStateUnknown by value) or in a shape the code ignores, members that hold resources deleted more often; ", nWired)+
-		fmt.Sprintf("plus the exhaustive stream once more (%d cases, 2 strict configurations) on a NewPodGroupManager-built manager through the registered handlers with every delete as a tombstone; ", nWexh)+
+			"(captured) pod / PodGroup informer, deletes as the object, as a re-list tombstone (DeletedFinalStateUnknown by value) or in a shape the code ignores, members that hold resources deleted more often; ", nWired) +
+		fmt.Sprintf("plus the exhaustive stream once more (%d cases, 2 strict configurations) on a NewPodGroupManager-built manager through the registered handlers with every delete as a tombstone; ", nWexh) +
 		fmt.Sprintf("plus a new-gang race stream of %d cases: the pod informer goroutine (onPodAdd of the first members) and the PodGroup informer goroutine (onPodGroupAdd) meet at a spin barrier "+
 			"before each of 8-40 brand-new gang ids per round, 2-5 rounds, oracle at the barrier (every added pod in exactly one set of the CACHED gang, gang initialised from its PodGroup); non-trivial there = all rounds ran", nRace))
 }
